@@ -321,6 +321,8 @@ class And(_Bool):
         return result
 
     def __and__(self, other):
+        if self.default is not _MISSING:
+            return And(self, other)  # flattening would drop the default
         # reduce number of layers of spec
         return And(*(self.children + (other,)))
 
@@ -343,6 +345,8 @@ class Or(_Bool):
         return scope[glom](target, self.children[-1], scope)
 
     def __or__(self, other):
+        if self.default is not _MISSING:
+            return Or(self, other)  # flattening would drop the default
         # reduce number of layers of spec
         return Or(*(self.children + (other,)))
 
